@@ -398,3 +398,45 @@ Fixpoint mnode_targets (n : mnode) : list N :=
   | MNode _ _ _ cs => flat_map mnode_targets cs
   | MInst _ u mats => u :: map (fun m => snd (fst m)) mats
   end.
+
+(* ------------------------------------------------------------------ optional value children *)
+(* collada.util._correctValInNode(outernode, tagname, value, after): the first child <tagname>
+   is removed when value is None, gets the text str(value) when it exists, and is created
+   otherwise - behind the last sibling named in `after` (at the front if there is none), or at
+   the end when `after` is not given. *)
+Fixpoint remove_first_tag (t : atom) (kids : list xml) : list xml :=
+  match kids with
+  | [] => []
+  | c :: r => if is_tag ns t c then r else c :: remove_first_tag t r
+  end.
+Definition set_text (v : toks) (x : xml) : xml := let 'El u n t a _ k := x in El u n t a (Some v) k.
+Fixpoint set_first_text (t : atom) (v : toks) (kids : list xml) : list xml :=
+  match kids with
+  | [] => []
+  | c :: r => if is_tag ns t c then set_text v c :: r else c :: set_first_text t v r
+  end.
+Definition in_tags (after : list atom) (c : xml) : bool := N.eqb (xns c) ns && existsb (N.eqb (xtag c)) after.
+(* loc = i + 1 for the last child i whose tag is in `after`, 0 if there is none *)
+Fixpoint insert_loc_from (i loc : nat) (after : list atom) (kids : list xml) : nat :=
+  match kids with
+  | [] => loc
+  | c :: r => insert_loc_from (S i) (if in_tags after c then S i else loc) after r
+  end.
+Definition insert_loc (after : list atom) (kids : list xml) : nat := insert_loc_from 0 0 after kids.
+
+Definition correct_val (t : atom) (value : option toks) (after : option (list atom)) (kids : list xml) : list xml :=
+  match List.find (is_tag ns t) kids, value with
+  | Some _, None => remove_first_tag t kids
+  | Some _, Some v => set_first_text t v kids
+  | None, Some v =>
+      let new := el t [] (Some v) [] in
+      match after with
+      | None => kids ++ [new]
+      | Some a => let loc := insert_loc a kids in firstn loc kids ++ new :: skipn loc kids
+      end
+  | None, None => kids
+  end.
+
+(* what an independent reader finds for the optional child *)
+Definition read_opt (t : atom) (kids : list xml) : option toks :=
+  match List.find (is_tag ns t) kids with Some c => Some (text_or_nil c) | None => None end.
